@@ -58,8 +58,8 @@ type World struct {
 	nodeID   topoapi.ID
 	rng      *rand.Rand
 
-	proc *process
-	gen  int
+	proc    *process
+	gen     int
 	obsTx   txstore.Store // observer stores: never crash, only used for snapshots
 	obsProp propstore.Store
 	obsCfg  cfgstore.Store
@@ -71,25 +71,26 @@ type World struct {
 	barrierN     int
 
 	// per-step observation buffers
-	stepEffects []Gate
-	stepMerges  []MergeRec
-	stepDevTags []DevTag
+	stepEffects  []Gate
+	stepMerges   []MergeRec
+	stepDevTags  []DevTag
 	totalEffects int
-	verOrd      map[string]int // record key -> number of successful writes (normalised version)
+	verOrd       map[string]int // record key -> number of successful writes (normalised version)
 
-	handlers  map[string]*Handler
-	hOrder    []string
-	Trace     *Trace
-	stepNo    int
+	handlers   map[string]*Handler
+	hOrder     []string
+	Trace      *Trace
+	stepNo     int
+	healN      int
 	cleanSince map[string]bool
 }
 
 // MergeRec is one configurations.Update call (the only caller is the proposal commit).
 type MergeRec struct {
-	T   string `json:"t"`
-	I   int    `json:"i"`
-	By  string `json:"by"` // reconcile id that issued it
-	OK  bool   `json:"ok"`
+	T  string `json:"t"`
+	I  int    `json:"i"`
+	By string `json:"by"` // reconcile id that issued it
+	OK bool   `json:"ok"`
 }
 
 // DevTag says which reconcile issued a southbound Set (in issue order per step).
@@ -100,14 +101,14 @@ type DevTag struct {
 }
 
 type process struct {
-	tx   txstore.Store
-	prop propstore.Store
-	cfg  cfgstore.Store
-	ctls map[string]*ctl
-	cord []string
-	actors map[string]*Actor
-	gnmi  *nbgnmi.Server
-	admin *admin.Server
+	tx          txstore.Store
+	prop        propstore.Store
+	cfg         cfgstore.Store
+	ctls        map[string]*ctl
+	cord        []string
+	actors      map[string]*Actor
+	gnmi        *nbgnmi.Server
+	admin       *admin.Server
 	hActorViews map[string]*Actor
 }
 
@@ -705,6 +706,9 @@ func (w *World) runReconcile(c *ctl, a *Actor, r controller.Reconciler, id contr
 	a.fine = fine
 	a.CurCtl = c.name
 	a.CurID = idKey(id)
+	if c.name == "cfg" || c.name == "mast" {
+		a.CurID = w.targetOfCfgID(a.CurID)
+	}
 	a.mu.Unlock()
 	before := w.totalEffectsNow()
 	out := &reconcileOutcome{}
@@ -889,7 +893,11 @@ func (w *World) Probe() (int, []string, error) {
 		if w.totalEffectsNow() != b {
 			which = append(which, c+"/"+idKey(id))
 		}
-		return w.settle()
+		sid := idKey(id)
+		if c == "cfg" || c == "mast" {
+			sid = w.targetOfCfgID(sid)
+		}
+		return w.record(Step{K: "force", C: c, ID: sid, Auto: true}, true)
 	}
 	for _, t := range txs {
 		if err := try("tx", controller.NewID(t.Index)); err != nil {
